@@ -175,9 +175,20 @@ def run(ctx: Ctx):
                 isinstance(P1.target, ast.Tuple) and isinstance(P1.target.elts[1], ast.Tuple):
             i = norm(P1.target.elts[0])
             u1 = norm(P1.target.elts[1].elts[1])
-            if norm(expand_locals(f.node, P2.iter, skip=(i,))) == f"{ua}.n_tuple[{i} + 1:]" and isinstance(P2.target, ast.Tuple):
+            inner_iter = norm(expand_locals(f.node, P2.iter, skip=(i,)))
+            if inner_iter == f"{ua}.n_tuple[{i} + 1:]" and isinstance(P2.target, ast.Tuple):
                 u2 = norm(P2.target.elts[1])
                 dom_ok = True
+                pair_body = P2.body
+            elif inner_iter in (f"{ua}.n_tuple[{i}:]", f"{ua}.n_tuple", f"{ua}.n_tuple[:{i}]", f"{ua}.n_tuple[:{i} + 1]", f"{ua}.n_tuple[{i} + 2:]", f"{ua}.n_tuple[1:]"):
+                what = {f"{ua}.n_tuple[{i}:]": "every pair plus each slot with itself", f"{ua}.n_tuple": "every ordered pair, self pairs included",
+                        f"{ua}.n_tuple[:{i} + 1]": "every pair plus each slot with itself"}.get(inner_iter, "not every unordered pair of distinct slots once")
+                if inner_iter != f"{ua}.n_tuple[:{i}]":
+                    ctx.bad("R-C12-1", f, P2, f"the inner pair loop iterates `{inner_iter}`: {what} (the weights and the disorder sum no longer range over "
+                            f"the C(n,2) pairs of the definition)", key="pair-domain")
+                    return
+                u2 = norm(P2.target.elts[1]) if isinstance(P2.target, ast.Tuple) else None
+                dom_ok = u2 is not None
                 pair_body = P2.body
     elif isinstance(P1.iter, ast.Call) and norm(P1.iter.func) in ("itertools.combinations", "combinations") and \
             norm(expand_locals(f.node, P1.iter.args[0])) == f"{ua}.n_tuple" and norm(P1.iter.args[1]) == "2" and isinstance(P1.target, ast.Tuple):
